@@ -326,7 +326,9 @@ func corpus(c *vf.Ctx) (units []unit, perPkg map[string]map[string]int) {
 			if li, lj := leafy(real[i]), leafy(real[j]); li != lj {
 				return li
 			}
-			return len(e.Encode(real[i].V)) < len(e.Encode(real[j].V))
+			bi, _ := e.SafeEncode(real[i].V)
+			bj, _ := e.SafeEncode(real[j].V)
+			return len(bi) < len(bj)
 		})
 		// order: zero, one, typical; three chain values; the other generic
 		// profiles; sum-type variants; remaining chain values
@@ -339,7 +341,14 @@ func corpus(c *vf.Ctx) (units []unit, perPkg map[string]map[string]int) {
 		order = append(order, real[nr:]...)
 		full := false
 		for _, b := range order {
-			if !add(b.Label, e.Encode(b.V)) {
+			eb, pv := e.SafeEncode(b.V)
+			if pv != nil {
+				// the ENCODER of the tree under test panicked on a domain value: C11's business; C10 goes on with the
+				// other bases (the byte-window substitutions still put the same extreme values on the wire)
+				c.Count("bases_skipped_encoder_panicked", 1)
+				continue
+			}
+			if !add(b.Label, eb) {
 				full = true
 				break
 			}
